@@ -311,6 +311,9 @@ def ep_path_filestat(eid, rng, abi):
     p = e.alloc(size + 8, 8, rng)
     e.fill(p, size + 8)
     e.call(abi, "path_filestat_get", 3, follow, pa, pl, p)
+    # … and again after the call: resolving a symbolic link updates the LINK's own access time (relatime), so the reading taken before
+    # the host's following stat above is not the one an lstat-view call sees afterwards
+    h += [e.aux("hstat " + rel + " " + str(follow) + " %s"), e.aux("hstat " + rel + " " + str(1 - follow) + " %s")]
     filestat_fields(e, rng, abi, "path_filestat_get", p, h, rel.startswith("ro/"))
     e.raw(p + size, 8, "path_filestat_get", abi, "beyond-record")
     return e
